@@ -272,7 +272,7 @@ def program_level(rep, prop, tier, resource, drv, light=False):
     lims = (300, 2000, 20000) if tier == "quick" else (50, 300, 2000, 20000, 150000)
     for name, src in SHELLS:
         for L in (lims[:1] if light else lims):
-            c = {"id": len(shell_cases), "src": src, "trace": "ctx", "timeout": 15000}
+            c = {"id": len(shell_cases), "src": src, "trace": "ctx", "timeout": 120000}
             if resource == "cpu":
                 c.update(cpu=L, mem=BIG)
             else:
